@@ -49,6 +49,7 @@ type incarnation struct {
 	hi     int // last acked read index of this incarnation
 	ackBusy chan struct{}
 	torn   bool
+	stopRPC bool
 }
 
 func (w *world) newIncarnation(content map[string][]byte, create bool, quiet bool) (*incarnation, error) {
@@ -82,7 +83,7 @@ func (w *world) newIncarnation(content map[string][]byte, create bool, quiet boo
 	if err != nil {
 		return nil, err
 	}
-	inc.plugin = &fakePlugin{w: w, inc: inc.id, quiet: quiet}
+	inc.plugin = &fakePlugin{w: w, inc: inc.id, quiet: quiet, permits: make(chan struct{}, 1<<16)}
 	c, err := inst.Connector(ctx, fakeFetcher{inc.plugin})
 	if err != nil {
 		return nil, err
@@ -93,6 +94,9 @@ func (w *world) newIncarnation(content map[string][]byte, create bool, quiet boo
 		to = 60 * time.Millisecond
 	}
 	connector.VerifSetSourceTimings(inc.src, to, w.cfg.maxRetries, time.Millisecond)
+	if w.cfg.node {
+		return inc, nil // the SourceNode opens the source itself
+	}
 	if err := inc.src.Open(ctx); err != nil {
 		return nil, err
 	}
@@ -245,6 +249,30 @@ func runOps(cfg runCfg, ops []string) (trace string, verdict string) {
 			case <-done:
 				inc.ackBusy = nil
 			case <-time.After(5 * time.Millisecond):
+			}
+		case op[0] == 'e':
+			// the plugin hands out k records and the engine reads them (Source.Read)
+			if inc.torn || inc.stopRPC {
+				continue
+			}
+			k, _ := strconv.Atoi(op[1:])
+			for i := 0; i < k; i++ {
+				inc.plugin.allow(1)
+				if _, err := inc.src.Read(ctx); err != nil {
+					w.emit(inc.id, "RERR")
+				}
+			}
+		case op == "S":
+			// the Stop RPC of a graceful stop: the value the real Source.Stop returns
+			if inc.torn || inc.stopRPC {
+				continue
+			}
+			inc.stopRPC = true
+			pos, err := inc.src.Stop(ctx)
+			if err != nil {
+				w.emit(inc.id, "SPERR")
+			} else {
+				w.emit(inc.id, "SP:"+posTok(pos))
 			}
 		case op == "f":
 			if inc.torn {
@@ -408,7 +436,9 @@ func runOps(cfg runCfg, ops []string) (trace string, verdict string) {
 	// C03: every store snapshot is a possible crash state; restart the REAL service on each and
 	// record the position the plugin is reopened with next to the commit that produced it.
 	for i, s := range snaps {
-		probe := &world{cfg: cfg}
+		pcfg := cfg
+		pcfg.node = false
+		probe := &world{cfg: pcfg}
 		pinc, err := probe.newIncarnation(s, false, true)
 		if err != nil {
 			logCopy[idx[i]] += "/ERR"
@@ -435,7 +465,11 @@ func cfgString(c runCfg) string {
 	if c.blind {
 		bs = 1
 	}
-	return fmt.Sprintf("mr=%d bt=%d to=%d bs=%d", c.maxRetries, c.bundleThr, to, bs)
+	nd := ""
+	if c.node {
+		nd = " nd=1"
+	}
+	return fmt.Sprintf("mr=%d bt=%d to=%d bs=%d%s", c.maxRetries, c.bundleThr, to, bs, nd)
 }
 
 func parseCfg(s string) runCfg {
@@ -455,6 +489,8 @@ func parseCfg(s string) runCfg {
 			c.timeouts = n == 1
 		case "bs":
 			c.blind = n == 1
+		case "nd":
+			c.node = n == 1
 		}
 	}
 	if c.maxRetries < 1 {
@@ -476,7 +512,12 @@ func runCase(cfg runCfg, ops []string) (line, impl string) {
 			cfg.timeouts = true
 		}
 	}
-	trace, verdict := runOps(cfg, ops)
+	var trace, verdict string
+	if cfg.node {
+		trace, verdict = runNodeOps(cfg, ops)
+	} else {
+		trace, verdict = runOps(cfg, ops)
+	}
 	return cfgString(cfg) + " ; " + strings.Join(ops, " ") + " ; " + trace, verdict
 }
 
